@@ -28,6 +28,9 @@ pub enum Op {
     /// a compressed / encrypted element with a proper digest declaration whose CONTENT is a node that is
     /// not canonical (repeated or out-of-order assertion elements), imported and opened: must be refused
     ImportOpen(u8, u8),
+    /// add_assertion_envelope(self.subject()): accepted iff the subject is an assertion (possibly
+    /// decorated) or obscured - the subject and an assertion element then share one digest
+    AddSubjectItself,
     AddDup(usize),
     AddDupObscured(usize, Obs),
     Remove(usize),
@@ -66,6 +69,7 @@ impl Op {
             Op::AddBulk(..) => "add-bulk-with-repeats",
             Op::ReplaceSame(..) => "replace-by-equal",
             Op::ImportOpen(..) => "import-and-open-noncanonical",
+            Op::AddSubjectItself => "add-subject-as-assertion",
             Op::AddDup(_) => "add-duplicate",
             Op::AddDupObscured(..) => "add-duplicate-obscured",
             Op::Remove(_) => "remove",
@@ -186,7 +190,8 @@ pub fn gen_op(src: &mut Src, m: &M) -> Op {
             226..=229 => Op::AddBulk(small_assertion(src), small_assertion(src), src.below(5) as u8, src.below(2) as u8),
             230..=233 if n_as > 0 => Op::ReplaceSame(src.below(n_as), match src.below(4) { 0 => None, 1 => Some(Obs::Elide), 2 => Some(Obs::Compress), _ => Some(Obs::Encrypt) }),
             230..=233 => Op::AddBulk(small_assertion(src), small_assertion(src), 0, 0),
-            _ => Op::ImportOpen(src.below(2) as u8, src.below(5) as u8),
+            234 | 235 => Op::AddSubjectItself,
+            _ => Op::ImportOpen(src.below(2) as u8, src.below(8) as u8),
         };
     }
     let w = [
@@ -539,7 +544,19 @@ pub fn apply(e: &Envelope, m: &M, op: &Op) -> Applied {
             let subj = M::text("imported subject");
             let mut asr: Vec<M> = (0..3).map(|i| M::assertion(M::text("k"), M::text(&format!("v{}", i)))).collect();
             asr.sort_by_key(|x| x.digest());
-            let arranged: Vec<M> = match variant % 5 {
+            let junk_leaf = M::text("not an assertion");
+            let junk_known = M::Known(77);
+            let junk_wrapped = M::wrapped(asr[2].clone());
+            let with_junk = |j: &M| -> Vec<M> {
+                // canonical order, two proper assertions and one element that is none
+                let mut v = vec![asr[0].clone(), asr[1].clone(), j.clone()];
+                v.sort_by_key(|x| x.digest());
+                v
+            };
+            let arranged: Vec<M> = match variant % 8 {
+                5 => with_junk(&junk_leaf),
+                6 => with_junk(&junk_known),
+                7 => with_junk(&junk_wrapped),
                 0 => vec![asr[0].clone(), asr[1].clone(), asr[1].clone()],          // repeat, not involving the first
                 1 => vec![asr[0].clone(), asr[2].clone(), asr[1].clone()],          // inversion, not involving the first
                 2 => vec![asr[0].clone(), asr[0].clone(), asr[1].clone()],          // repeat of the first
@@ -579,6 +596,17 @@ pub fn apply(e: &Envelope, m: &M, op: &Op) -> Applied {
                 }
             }
             Applied { result: last, predicted: Predicted::Error }
+        }
+        Op::AddSubjectItself => {
+            let subj = e.subject();
+            let sm = m.subject().clone();
+            let mut core = &sm;
+            while let M::Node(inner, _) = core {
+                core = inner;
+            }
+            let valid = matches!(core, M::Assertion(..)) || core.is_obscured();
+            let result = e.add_assertion_envelope(subj).map_err(|r| r.to_string());
+            Applied { result, predicted: if valid { Predicted::Exactly(m.add(sm)) } else { Predicted::Error } }
         }
         Op::AddDup(i) => {
             let a = e.assertions()[*i].clone();
